@@ -57,7 +57,8 @@ Inductive item :=
 | ByteExpr (e : aexpr)
 | Align (m : Z)
 | Odd
-| NeedEven.
+| NeedEven
+| Resv (n : Z).   (* `. = . + n` with the base set: n zero bytes; the new address goes through get_as_int 16 *)
 
 Definition get_as_int (bits : Z) (v : Z) : res Z :=
   if v <=? - 2 ^ bits then Err ["value-out-of-bounds"%string]
@@ -98,6 +99,8 @@ Definition item_bytes (b pos : Z) (it : item) : res (list Z) :=
                else Ok (zeros (Z.to_nat ((- (b + pos)) mod m)))
   | Odd => Ok (if (b + pos) mod 2 =? 0 then [0] else [])
   | NeedEven => if (b + pos) mod 2 =? 1 then Err ["odd-address"%string] else Ok []
+  | Resv n => do _ <- get_as_int 16 (b + pos + n);
+              if n <? 0 then Err ["value-out-of-bounds"%string] else Ok (zeros (Z.to_nat n))
   end.
 
 (* the image, and the first error otherwise *)
@@ -120,6 +123,7 @@ Definition item_size (b pos : Z) (it : item) : Z :=
   | Align m => if m <=? 0 then 0 else (- (b + pos)) mod m
   | Odd => if (b + pos) mod 2 =? 0 then 1 else 0
   | NeedEven => 0
+  | Resv n => Z.max 0 n
   end.
 
 (* the words that move with the base: (offset in the image, coefficient of the base in the field) *)
@@ -140,7 +144,7 @@ Definition abs_words (b : Z) (p : list item) : list (Z * Z) := abs_words_from b 
 (* domain D9 for a base difference d: sizes and branch fields cannot depend on the base *)
 Definition item_d9 (d : Z) (it : item) : bool :=
   match it with
-  | Fixed _ | AbsWord _ | RelWord _ | NeedEven => true
+  | Fixed _ | AbsWord _ | RelWord _ | NeedEven | Resv _ => true
   | Branch _ e | Sob _ e => acoef e =? 1
   | ByteExpr e => acoef e =? 0
   | Align m => (0 <? m) && (d mod m =? 0)
